@@ -338,7 +338,7 @@ def run(ctx):
         raise RuntimeError("E-CLOSE abstraction too coarse: %r" % cst["abstraction_failures"][:3])
 
     # 4. pumping
-    sizes = [10, 100, 1000, 3000] if ctx.quick else [10, 100, 1000, 3000, 10000, 30000, 65000]
+    sizes = [10, 100, 1000, 3000, 5000] if ctx.quick else [10, 100, 1000, 3000, 10000, 30000, 65000]
     units = []
     for name, _ in pump_families():
         for n in sizes:
@@ -349,6 +349,14 @@ def run(ctx):
     ctx.pmap(_pump_unit, units)
     ctx.layer("pump", families=len(pump_families()), sizes=sizes, exhaustive=True,
               note="path families capped at 1000/3000 segments (quadratic re-rooting), everything else up to 64KB")
+
+    # 4b. "the same string always gives the same outcome" also when an earlier failed parse's token generator is finalised late:
+    # every placement of that finalisation during the next parse (explorer of C20, a subset of its histories)
+    from checks import C20 as _C20
+    _C20.prime_fresh_outcomes(_C20.FIN_PROBES)
+    combos = [(h, p_) for h in _C20.FIN_HISTORIES[::2] for p_ in _C20.FIN_PROBES[:3]]
+    ctx.pmap(_C20._finaliser_unit, [combos[i::12] for i in range(12)])
+    ctx.layer("finaliser-placements", histories=len(_C20.FIN_HISTORIES[::2]), probes=3, exhaustive=True, note="see C20 layer finalisers")
 
     # 5. junk: every BMP code point (quick: seed-selected 1/4 block + ASCII/Latin-1 core)
     if ctx.quick:
@@ -372,6 +380,9 @@ def run(ctx):
 
 
 def replay(ctx, case):
+    if case.get("layer") == "finalisers":
+        from checks import C20 as _C20
+        return _C20.replay(ctx, case)
     if case.get("gen"):
         text = dict(pump_families())[case["gen"]["family"]](case["gen"]["n"])
     elif case["layer"] == "lr":
